@@ -141,7 +141,10 @@ func TestVerifC11(t *testing.T) {
 		b, _ := json.Marshal(c.Scenario)
 		var sc c11Scenario
 		json.Unmarshal(b, &sc)
-		_, v := c11Run(sc, c11Serial(sc), c.Choices, c.Sigs)
+		sr, v := c11Run(sc, c11Serial(sc), c.Choices, c.Sigs)
+		if sr.Diverged != "" {
+			panic("VERIF-INFRA: the recorded schedule does not fit this tree: " + sr.Diverged)
+		}
 		if v.Class != "" {
 			res.finding("c11:"+v.Class+":"+sc.Name, v.Desc, c)
 		}
